@@ -18,6 +18,30 @@ DEFAULT_RULE = ("cases come from harness/src/gen.rs (one SplitMix64 stream seede
                 "(at least one database/shell/sleep event, or a failure verdict)")
 
 PROPS = {
+    "C13": {
+        "runs": [{"profile": "c13", "n_quick": 20000, "n_thorough": 400000}],
+        "observable": "text received by the mock AsyncDB / argv of the command given to the mock's run_command (test directory and clock canonicalised after checking their shape), verdict and error kind of records whose substitution fails; oracle on the implementation alone: one existing test directory per runner, the same for all its records, distinct between runners alive at the same time, gone after drop",
+        "explanation": "texts over the documented syntax built from abstract templates: literals incl. { } : multi-byte, $NAME, ${NAME}, ${NAME:default} nested to depth 4, escapes, 10 variable names (locals, environment, unset, special, shadowed), 11 values containing $ \\ { } : ; 1/7 malformed texts (stray \\x, ${, ${}, $ at the end = the dependency's index panic, reproduced by the model); substitution switched on / off at arbitrary points; system commands (simple replacement)",
+        "trusted": ["tempfile name freshness and directory removal are OS / crate behaviour: observed, not proved (partial)"],
+    },
+    "C16": {
+        "runs": [{"profile": "cli16", "kind": "cli", "n_quick": 25, "n_thorough": 500, "nontrivial": "any"}],
+        "observable": "exit status, per-file status tags on stdout, <name>-junit.xml (case names, statuses, count) of the real binary driven through --engine external with the fake engine; serial runs are diffed against the model's fold (predicted exit + result per file), every run (serial and -j 1..8) is replayed through the Lean report checker `checkReport` and the event-log monitor",
+        "explanation": "sets of 1..12 files with independently chosen outcomes (pass / failing record / result mismatch / parse error / engine dying / connection refused) x serial and -j 1..8 x fail-fast on/off x per-request engine latency 0/5/20 ms",
+        "assumptions": ["which interleavings tokio actually produces is not controlled (partial): schedule-dependent runs are judged by the relation, not by equality", "quick-junit XML serialisation and clap are trusted"],
+    },
+    "C17": {
+        "runs": [{"profile": "cli17", "kind": "cli", "n_quick": 25, "n_thorough": 500, "nontrivial": "any"}],
+        "observable": "engine-side event log (one O_APPEND log written by every fake-engine process: connect / sql / eof with the database the process was started for, CREATE / DROP DATABASE on the management session), replayed through the Lean monitor `accepts`: create-before-use, unique names, exclusive use (every SQL line carries its file), $__DATABASE__ expansion, at most `jobs` databases with open sessions, close-before-drop, dropped exactly once unless kept / refused, every session closed",
+        "explanation": "sets of 1..10 files (pass / fail / die / parse error, several named connections per file, `dbname $__DATABASE__` probes) x -j 1..8 x keep-on-failure on/off x latency 0/3/10/30 ms to vary interleavings",
+        "assumptions": ["the interleavings explored are those the real scheduler produces under the chosen latencies (partial); the theorem covers all schedules of the driver model"],
+    },
+    "C19": {
+        "runs": [{"profile": "cli19", "kind": "cli", "n_quick": 5, "n_thorough": 60, "nontrivial": "any"}],
+        "observable": "real binary, serial and -j 2/3; the fake engine sends SIGINT to the CLI when it receives its k-th request, for every k (quick: 5 sampled k per file set); fail-fast with the first failing file at every position (parallel: among the first `jobs`); engine event log + exit status + status tags + JUnit, replayed through the monitor with the cancellation anchor (signal + 250 ms slack) and judged by deterministic rules where the schedule is forced (serial: every file after the one in flight is skipped without traffic; parallel fail-fast: every file beyond the first `jobs` is skipped without traffic)",
+        "explanation": "per-request latency 150 ms (Ctrl-C runs) / 60 ms (parallel fail-fast) so that cancellation is processed long before another file could complete",
+        "assumptions": ["latency between signal and cancellation, the wall-clock bound (25 s per run enforced by the harness) and task abortion by tokio are runtime behaviour the model cannot exhibit (partial)"],
+    },
     "C08": {
         "runs": [
             {"profile": "updatesmall", "n_quick": 0, "n_thorough": 0, "nontrivial": "update", "exhaustive": True},
